@@ -101,26 +101,64 @@ class Call:
 
 
 class Body:
-    def __init__(self, raw, crate):
-        self.raw = raw
+    """One MIR body. Constructed from a light header; the MIR itself (`raw`) is unpickled on
+    first use."""
+
+    def __init__(self, header, crate, blob_path):
+        self.h = header
         self.crate = crate
-        self.defq = raw["def"]
-        self.unit = raw["unit"]
-        self.kind = raw["kind"]
-        self.file = raw["file"]
-        self.line = raw["line"]
-        self.end_line = raw.get("end_line")
-        self.argc = raw["argc"]
-        self.impl_self = raw.get("impl_self")
-        self.impl_trait = raw.get("impl_trait")
-        self.locals = raw["locals"]
-        self.blocks = raw["blocks"]
+        self._blob_path = blob_path
+        self._raw = None
+        self.defq = header["def"]
+        self.unit = header["unit"]
+        self.kind = header["kind"]
+        self.file = header["file"]
+        self.line = header["line"]
+        self.end_line = header.get("end_line")
+        self.argc = header["argc"]
+        self.impl_self = header.get("impl_self")
+        self.impl_trait = header.get("impl_trait")
+        self.callees = header["callees"]
+        self.fnref_paths = header["fnrefs"]
+        self.adts_touched = header["adts"]
         self._succs = None
         self._preds = None
         self._calls = None
         self._defs = None
         self._reach0 = None
         self._upvars = None
+
+    @property
+    def raw(self):
+        if self._raw is None:
+            import pickle
+            with open(self._blob_path, "rb") as f:
+                f.seek(self.h["off"])
+                self._raw = pickle.loads(f.read(self.h["len"]))
+        return self._raw
+
+    @property
+    def locals(self):
+        return self.raw["locals"]
+
+    @property
+    def blocks(self):
+        return self.raw["blocks"]
+
+    def may_call(self, specs):
+        """cheap pre-filter on the header: could this body contain a call / fn reference
+        matching one of specs (exact or glob)?"""
+        for s in specs:
+            if "*" in s:
+                for c in self.callees:
+                    if fnmatch.fnmatchcase(c, s):
+                        return True
+                for c in self.fnref_paths:
+                    if fnmatch.fnmatchcase(c, s):
+                        return True
+            elif s in self.callees or s in self.fnref_paths:
+                return True
+        return False
 
     # ---- CFG -------------------------------------------------------------------------
     def succs(self, bb):
@@ -237,6 +275,8 @@ class Body:
         return self._calls
 
     def calls_to(self, *specs, live_only=True):
+        if self._calls is None and not self.may_call(specs):
+            return []
         return [c for c in self.calls if c.is_path(*specs) and (not live_only or c.bb in self.live)]
 
     def stmts(self):
@@ -405,6 +445,26 @@ class Origins:
         for p in pl.get("p", []):
             if p.startswith("@"):
                 out.add(("variant", p[1:]))
+        # field-sensitive step: `X.n` / `X.name` where X is built by exactly one tuple / struct
+        # aggregate follows only the matching operand
+        proj = pl.get("p", [])
+        if proj and proj[0].startswith(".") and not (1 <= pl["l"] <= self.body.argc):
+            ds = self.body.defs.get(pl["l"], [])
+            whole = [d for d in ds if d[0] == "assign" and not d[3].get("p")]
+            if len(ds) == 1 and len(whole) == 1 and whole[0][4]["k"] == "agg":
+                rv = whole[0][4]
+                fld = proj[0][1:]
+                idx = None
+                if rv.get("ak") == "tuple" and fld.isdigit():
+                    idx = int(fld)
+                elif rv.get("ak") == "adt" and fld in rv.get("fields", []):
+                    idx = rv["fields"].index(fld)
+                if idx is not None and idx < len(rv.get("ops", [])):
+                    n = self.body.local_name(pl["l"])
+                    if n:
+                        out.add(("local", n))
+                    self._op(rv["ops"][idx], depth, out, seen)
+                    return
         self._local(pl["l"], pl, depth, out, seen)
 
     def _local(self, l, pl, depth, out, seen):
@@ -682,8 +742,8 @@ class Facts:
         if name not in self._crates:
             if name not in factsmod.EXPECTED:
                 raise AnchorMissing(f"crate {name} is not in the analysed set")
-            raw = factsmod.load_crate(self.config, name)
-            bodies = [Body(b, name) for b in raw["bodies"]]
+            raw, headers, blob = factsmod.load_crate(self.config, name)
+            bodies = [Body(h, name, blob) for h in headers]
             units = defaultdict(list)
             for b in bodies:
                 units[(b.unit, b.impl_self, b.impl_trait)].append(b)
@@ -692,6 +752,7 @@ class Facts:
                 byq[q].append(Unit(q, bs))
             self._crates[name] = {"raw": raw, "bodies": bodies, "units": byq,
                                   "adts": {a["q"]: a for a in raw["adts"]},
+                                  "ext_adts": {a["q"]: a for a in raw.get("ext_adts", [])},
                                   "skipped": set(raw.get("skipped", []))}
         return self._crates[name]
 
@@ -745,12 +806,20 @@ class Facts:
                 for u in us:
                     yield u
 
-    def adt(self, q):
-        c = self.crate(self.crate_of(q))
-        a = c["adts"].get(q)
-        if a is None:
-            raise AnchorMissing(f"type {q}")
-        return a
+    def adt(self, q, hint_crate=None):
+        """ADT description (variants, fields). Enums of external crates are described in the
+        facts of the workspace crates that match on them (`ext_adts`)."""
+        cn = self.crate_of(q)
+        if cn in factsmod.EXPECTED:
+            a = self.crate(cn)["adts"].get(q)
+            if a is not None:
+                return a
+        cands = ([hint_crate] if hint_crate else []) + list(self._crates)
+        for c in cands:
+            a = self.crate(c)["ext_adts"].get(q)
+            if a is not None:
+                return a
+        raise AnchorMissing(f"type {q}")
 
     def impls(self, crate, trait=None, self_q=None):
         c = self.crate(crate)
@@ -779,5 +848,6 @@ class Facts:
 
     def stats(self):
         nb = sum(len(c["bodies"]) for c in self._crates.values())
+        nl = sum(1 for c in self._crates.values() for b in c["bodies"] if b._raw is not None)
         nc = sum(len(b.calls) for c in self._crates.values() for b in c["bodies"] if b._calls is not None)
-        return {"crates_loaded": sorted(self._crates), "bodies": nb, "call_sites_indexed": nc}
+        return {"crates_loaded": sorted(self._crates), "bodies": nb, "bodies_analysed": nl, "call_sites_indexed": nc}
